@@ -35,8 +35,11 @@ type sessionSpec struct {
 	Steps []stepSpec `json:"steps"`
 }
 
-var patterns = []string{`{"a":"?x"}`, `{"a":1}`, `{"b":"?y"}`, `{"a":1,"b":2}`, `{"c":"?z"}`, `{"a":2}`}
-var lines = []string{`{"a":1}`, `{"a":2}`, `{"b":1}`, `{"a":1,"b":2}`, `{"c":3}`, `{"d":4}`, `not json at all`, `{"a":1}`, `{"b":2,"a":2}`}
+var patterns = []string{`{"a":"?x"}`, `{"a":1}`, `{"b":"?y"}`, `{"a":1,"b":2}`, `{"c":"?z"}`, `{"a":2}`, `{"?k":"v"}`, `{"?k":1}`, `{"?":7}`, `{"l":["?e"]}`}
+var lines = []string{`{"a":1}`, `{"a":2}`, `{"b":1}`, `{"a":1,"b":2}`, `{"c":3}`, `{"d":4}`, `not json at all`, `{"a":1}`, `{"b":2,"a":2}`,
+	`{"k":"v"}`, `{"l":[1,2]}`, `{"l":[]}`,
+	// not JSON, although a prefix is
+	`{"a":1}}`, `{"b":1} ] junk`, `[{"a":1}]]`, `{"c":3}]`, `{"a":1} {"b":1}`, `{"a":1},`}
 
 func guardAccepts(kind string, bs match.Bindings) bool {
 	switch kind {
